@@ -175,7 +175,9 @@ pub fn run(tier: Tier, shard: Shard, rep: &mut Report) {
          each participant alone to the end of its operation while every peer stays frozen at its current filesystem call. Monitors per \
          execution: own filesystem steps of each operation <= {} + {} x (directory entries it listed); no flock/lockf/fcntl lock; no \
          O_CREAT|O_EXCL inside a cache directory outside .kismet_temp; <= 2 publication attempts per write; no deadlock; no operation \
-         failing or spinning past the horizon. Non-trivial = execution with >= 1 preemption; solo suffixes are counted.",
+         failing or spinning past the horizon. Plus: a solo sharded set/put under every combination of load estimates {{0, 101, 255}} x {{0, 101, 255}} left behind by peers \
+         (shard capacity 50) and of where the key lives: it finishes within 3000 of its own filesystem steps. \
+         Non-trivial = execution with >= 1 preemption; solo suffixes are counted.",
         STEP_A, STEP_B
     );
     rep.assumptions = vec![
@@ -189,9 +191,105 @@ pub fn run(tier: Tier, shard: Shard, rep: &mut Report) {
     let mut chk = |pi: usize, x: &Execution| check_named(x, &mut solo, stalled[pi]);
     e1::explore_all("C06", &progs, shard, rep, &|_| RunOpts { event_budget: 2000, ..Default::default() }, &mut chk, cap);
     rep.count("solo_suffixes_observed", solo);
+    crate::run::reset_env();
+    estimate_section(shard, rep);
+}
+
+/// Aborts the (forked) process once the operation has issued more than `budget` filesystem calls.
+struct Budget {
+    budget: u64,
+    n: std::sync::atomic::AtomicU64,
+}
+
+impl crate::shim::Controller for Budget {
+    fn before(&self, _ev: &crate::shim::Ev) -> crate::shim::Action {
+        if self.n.fetch_add(1, std::sync::atomic::Ordering::SeqCst) >= self.budget {
+            crate::shim::Action::Die
+        } else {
+            crate::shim::Action::Proceed
+        }
+    }
+}
+
+/// A sharded handle's in-memory load estimates are shared by all threads of the process and can be left at any value
+/// by peers that have since stopped (each bump is one write; nothing resets an estimate but a maintenance of that very
+/// shard).  Whatever they say, a solo write finishes in a bounded number of its own steps.
+fn estimate_section(shard: Shard, rep: &mut Report) {
+    use crate::world::{Scratch, Size, Val};
+    let mut no = 0u64;
+    for est0 in [0u8, 101, 255] {
+        for est1 in [0u8, 101, 255] {
+            for lives_in in [0usize, 1, 2] {
+                for set in [true, false] {
+                    no += 1;
+                    if !shard.mine(no) {
+                        continue;
+                    }
+                    crate::run::reset_env();
+                    let sc = Scratch::new();
+                    let dir = sc.path("cache");
+                    let key = crate::ops::key_for_shards("k", 0, 1, 2);
+                    let old = crate::run::base_time_ns() as i128 - 86_400_000_000_000;
+                    for s in 0..2 {
+                        let d = dir.join(crate::ops::shard_dir_name(s));
+                        crate::shim::passthrough(|| std::fs::create_dir_all(&d).unwrap());
+                        crate::world::plant(&d.join(format!("other{}", s)), b"x", 0o444, old - 120_000_000_000, old);
+                    }
+                    if lives_in < 2 {
+                        crate::world::plant(&dir.join(crate::ops::shard_dir_name(lives_in)).join("k"), &Val::one(0).bytes(), 0o444, old + 5_000_000_000, old);
+                    }
+                    let cache = kismet_cache::sharded::Cache::new(dir.clone(), 2, 100);
+                    cache.verif_set_load_estimate(0, est0);
+                    cache.verif_set_load_estimate(1, est1);
+                    let src = sc.path("src");
+                    crate::shim::passthrough(|| std::fs::write(&src, Val::new(1, Size::One).bytes()).unwrap());
+                    rep.evaluations += 1;
+                    rep.states += 1;
+                    rep.traces += 1;
+                    rep.count("load_estimate_cases", 1);
+                    let pid = unsafe { libc::fork() };
+                    if pid == 0 {
+                        crate::shim::set_controller(Some(std::sync::Arc::new(Budget { budget: 3000, n: std::sync::atomic::AtomicU64::new(0) })));
+                        let (r, _t) = crate::run::as_participant(0, 0, || {
+                            crate::run::trigger_never();
+                            if set {
+                                cache.set(key.key(), &src)
+                            } else {
+                                cache.put(key.key(), &src)
+                            }
+                        });
+                        unsafe { libc::_exit(if matches!(r, Ok(Ok(()))) { 0 } else { 3 }) };
+                    }
+                    let mut status: libc::c_int = 0;
+                    unsafe { libc::waitpid(pid, &mut status, 0) };
+                    let code = if libc::WIFEXITED(status) { libc::WEXITSTATUS(status) } else { -1 };
+                    let label = format!(
+                        "sharded {} of a key {} with load estimates [{}, {}] (shard capacity 50), alone",
+                        if set { "set" } else { "put" },
+                        match lives_in {
+                            0 => "living in its primary shard",
+                            1 => "living in its secondary shard",
+                            _ => "not cached yet",
+                        },
+                        est0,
+                        est1
+                    );
+                    match code {
+                        0 => {}
+                        137 => rep.violation("progress:step-bound", format!("{}: still running after 3000 filesystem steps", label), serde_json::json!({"estimate_section": true})),
+                        other => rep.violation("progress:op-failed", format!("{}: failed (child exit {})", label, other), serde_json::json!({"estimate_section": true})),
+                    }
+                }
+            }
+        }
+    }
 }
 
 pub fn replay(case: &Value, rep: &mut Report) {
+    if case.get("estimate_section").is_some() {
+        estimate_section(Shard { index: 0, count: 1 }, rep);
+        return;
+    }
     crate::sched::install_hooks();
     let progs: Vec<Program> = programs(Tier::Thorough).into_iter().map(|p| p.0).collect();
     let mut solo = 0;
